@@ -64,6 +64,7 @@ func (e *Engine) GenUnit(fn *ssa.Function) (u *Unit) {
 		bindTerms = append(bindTerms, name)
 	}
 	g.findSharedCells()
+	g.declareEventVars()
 	sig := fn.Signature
 	if fc == nil {
 		fc = &FuncContract{Pkg: pkgPathOf(fn), Key: fn.Name(), Loops: map[string][]Clause{}, Flags: map[string]string{}}
